@@ -2186,6 +2186,8 @@ class Deb822NoDuplicateFieldsParagraphElement(Deb822ParagraphElement):
             # Use the string from the Deb822FieldNameToken as we need to keep that in memory either
             # way
             key = value.field_name
+        # The field may end up in front of other fields, paragraphs or comments
+        value.value_element.add_final_newline_if_missing()
         original_value = self._kvpair_elements.get(key)
         if original_value is None:
             # The new field is placed after the (current) last field
@@ -2474,6 +2476,8 @@ class Deb822DuplicateFieldsParagraphElement(Deb822ParagraphElement):
             # Use the string from the Deb822FieldNameToken as it is a _strI and has the same value
             # (memory optimization)
             key = value.field_name
+        # The field may end up in front of other fields, paragraphs or comments
+        value.value_element.add_final_newline_if_missing()
         original_nodes = self._kvpair_elements.get(key)
         if original_nodes is None or not original_nodes:
             if index is not None and index != 0:
